@@ -62,6 +62,12 @@ def _lattice_prio_case(seed):
         # two ways to read the text before a run of blanks (the token with or without one trailing blank), told apart only by priorities
         pa, pas = rng.sample(['', '.1', '.3', '.5'], 2)
         g = rng.choice(['start: x %s\nx: a_ | as_\na_%s: A\nas_%s: AS\nA: /a/\nAS: /a /\n', 'start: x %s\nx: A | AS\nA%s: /a/\nAS%s: /a /\n']) % (rng.choice(['B', 'SB', 'B B']), pa, pas) + 'B: /b/\nSB: / ?b/\n%ignore / +/\n'
+    fam2 = (not fam) and rng.random() < 0.2
+    if fam2:
+        # the only prioritised symbol is a terminal that is %ignore'd AND used in a rule (a significant blank / doc comment): the text before an item can be read as
+        # ignored or as part of the item, told apart only by that terminal's priority
+        alts = rng.choice(['A | W A', 'W A | A', 'A | A W', 'A W | A'])
+        g = 'start: item | start item\nitem: %s\nW%s: %s\nA: /a/\n%%ignore W\n' % (alts, rng.choice(['.2', '.-3', '.1', '.-1']), rng.choice(['/ /', '/ +/', '" "']))
     out = {'grammar': g, 'fails': [], 'checked': 0}
     lexer = rng.choice(['dynamic', 'dynamic_complete'])
     try:
@@ -79,6 +85,8 @@ def _lattice_prio_case(seed):
         text = ''.join(rng.choice(['a', 'b', 'c', ' ', '  ', 'a ', ' b', 'aa']) for _ in range(rng.randint(1, 5)))
         if fam:
             text = 'a' + ' ' * rng.randint(0, 3) + 'b' + rng.choice(['', ' b', 'b'])
+        if fam2:
+            text = ''.join(rng.choice(['a', ' a', 'a ', '  a']) for _ in range(rng.randint(1, 3)))
         n = len(text)
         step = {i: {j for r in ign for j in range(i + 1, n + 1) if r.fullmatch(text, i, j)} for i in range(n + 1)}
         skip = {}
